@@ -62,6 +62,43 @@ def judge_twin(base, s, e, nlook):
     return None
 
 
+def judge_facade_twins(base, order):
+    """one PyKdebugParser prints X and X_nocancel with byte-identical START/END tuples (order: which comes first)."""
+    import io
+    from mc import build as B
+    from pykdebugparser.pykdebugparser import PyKdebugParser
+    nc = base + '_nocancel'
+    s, e = D.in_domain(base, 'se', (0x1111, 0x2222, 0x3333, 0x4444), (0, 0x55, 0x66, 0x77), 1)
+    names = [base, nc] if order == 0 else [nc, base]
+    recs = []
+    for i, n in enumerate(names + names):
+        recs += [B.rec(10 * i + 1, s, 1, E.n2i(n) | 1), B.rec(10 * i + 2, e, 1, E.n2i(n) | 2)]
+    f = PyKdebugParser()
+    f.color = False
+    f.show_timestamp = False
+    try:
+        lines = list(f.formatted_traces(io.BytesIO(B.v2([(1, 10, 'p')], 0, recs)), dict(E.codes())))
+    except Exception as ex:
+        return ('twin-facade-raised:' + type(ex).__name__, {'error': repr(ex)[:200]})
+    if len(lines) != 4:
+        return ('twin-trace-count', {'lines': lines})
+    by = {}
+    for n, l in zip(names + names, lines):
+        by.setdefault(n, []).append(l)
+    if by[base][0] != by[base][1] or by[nc][0] != by[nc][1]:
+        return ('twin-line-depends-on-what-was-printed-before', {'lines': lines})
+    a, b = by[base][0], by[nc][0]
+    body_a, body_b = a[34:], b[34:]
+    ca, cb = split_call(body_a), split_call(body_b)
+    if ca is None or cb is None:
+        if body_a == body_b:
+            return ('twin-renderings-identical-through-facade', {'base': a, 'nocancel': b})
+        return None
+    if cb[0] != ca[0] + '_nocancel' or ca[1:] != cb[1:]:
+        return ('twin-renderings-differ-through-facade', {'base': a, 'nocancel': b})
+    return None
+
+
 class C17(Check):
     pid = 'C17'
     level = 'exploration'
@@ -69,7 +106,8 @@ class C17(Check):
             '(name occurs; the id it is stored under in the mapping has clear qualifier bits; the name survives last-wins '
             'de-duplication of ids); per-family handler dicts pairwise disjoint; every *_nocancel entry has its base registered; '
             'for every twin pair the product of START word domains (as C09) x 3 END tuples x {0,2} lookups: renderings equal up '
-            'to the _nocancel suffix of the call name. Distinct by construction; non-trivial = twin comparison runs and table '
+            'to the _nocancel suffix of the call name; and both twins printed twice by ONE PyKdebugParser object with byte-identical '
+            'tuples, in both orders, through formatted_traces. Distinct by construction; non-trivial = twin comparison runs and table '
             'entries of decoders with a _nocancel twin.')
     assumptions = ('the bundled table is read from pykdebugparser/trace.codes of the tree under test',)
 
@@ -80,7 +118,7 @@ class C17(Check):
     def shards(self):
         h = registered()
         twins = sorted(n[:-len('_nocancel')] for n in h if n.endswith('_nocancel'))
-        return [('tables',)] + [('twins', ch) for ch in chunked(twins, 32)]
+        return [('tables',), ('facade', twins)] + [('twins', ch) for ch in chunked(twins, 32)]
 
     def run_shard(self, desc, acc):
         if desc[0] == 'tables':
@@ -113,6 +151,16 @@ class C17(Check):
             missing = [n for n in D.decoder_names() if n not in h]
             acc.count('decoders_of_pinned_commit_no_longer_registered', len(missing))
             acc.sample({'registered_decoder': 'BSC_read', 'table_ids': [hex(x) for x in names.get('BSC_read', [])]})
+        elif desc[0] == 'facade':
+            h = registered()
+            for base in desc[1]:
+                if base not in h:
+                    continue
+                for order in (0, 1):
+                    bad = judge_facade_twins(base, order)
+                    acc.case(nontrivial=True, transitions=8, outcome=h64((base, order)))
+                    if bad:
+                        acc.violation(f'{bad[0]}@{base}', {'kind': 'facade', 'base': base, 'order': order}, bad[1])
         else:
             h = registered()
             for base in desc[1]:
@@ -132,6 +180,9 @@ class C17(Check):
                                 acc.sample({'twin': base, 'start': [hex(x) for x in s]})
 
     def replay(self, case):
+        if case['kind'] == 'facade':
+            bad = judge_facade_twins(case['base'], case['order'])
+            return [(f"{bad[0]}@{case['base']}", bad[1])] if bad else []
         if case['kind'] == 'twin':
             bad = judge_twin(case['base'], tuple(int(x, 16) for x in case['start']), tuple(int(x, 16) for x in case['end']),
                              case['lookups'])
